@@ -171,4 +171,12 @@ def unknownProfileConfig : Config where
 /-- … and a concrete invalid one is refused at the expected site -/
 example : configure unknownProfileConfig = some .P1 := by decide
 
+/-- The verdict of a run owes nothing to earlier runs: whatever `ConfigurationValid` the application
+    context carried into `Start` (set by an earlier, valid run, say), afterwards it says whether THIS
+    configuration passed (checked on the real `Start` by the `restart=` observation of the config stream). -/
+theorem verdict_ignores_earlier_runs (prior : Bool) (c : Config) :
+    flagAfter prior c = (configure c).isNone := by
+  unfold flagAfter
+  cases configure c <;> rfl
+
 end Burrow.Props.C19
